@@ -130,9 +130,27 @@ SPEC += ["type :: cl\ncharacter :: name*20\ncharacter :: code*4 = 'none'\ncharac
 # labelled DO loops sharing a label / ended by an action statement, with statements after the inner DO (indentation of the printed text)
 EXEC += ["do 10 i = 1, 2\ndo 10 j = 1, 2\nx = 1\n10 a(i, j) = 0", "do 20 i = 1, 2\nx = 1\ndo 20 j = 1, 2\ny = 2\n20 continue", "do 30 i = 1, 2\ndo 40 j = 1, 2\ny = 2\n40 a(j) = 0\nz = 3\n30 b(i) = 0",
          "do 50 i = 1, 2\nif (i > 1) then\nx = 1\nend if\n50 end do"]
+# statements chosen from a coverage run of the corpus over Fortran2003.py: match / tostr branches that nothing reached
+SPEC += ["real :: as1(3, *), as2(2:*), as3(*)", "character(len=*) :: cstar2(*)", "use m7, operator(.a.) => operator(.b.)", "use m8, only: operator(.c.) => operator(.d.), x1 => y1",
+         "procedure(f), intent(in) :: pin", "procedure(f), optional, intent(inout) :: pio", "procedure(f), bind(c, name='cp') :: pbc", "procedure(f), private, save :: pps",
+         "type, private :: tprv\ninteger :: k\nend type tprv", "type, public, bind(c) :: tpb\ninteger(c_int) :: k\nend type tpb", "type :: tq(k1, k2)\ninteger, kind :: k1, k2\nend type tq",
+         "type :: tsb\ncontains\nprocedure :: a1 => b1, a2\nprocedure, nopass, private :: a3 => b3\nprocedure(if1), deferred, nopass :: a4, a5\nend type tsb",
+         "integer, bind(c, name='bn') :: bnv", "bind(c, name='cb') :: /cblk/, cv2", "save", "integer, parameter :: kk(2) = [1, 2]",
+         "namelist /nq/ a", "equivalence (a, b(1)), (c(2), d)", "intent(out) io2, io3", "dimension d1(2), d2(3, 3)", "implicit logical (l), complex (z)", "data a /1/, b /2*3/, c(1) /.true./",
+         "common /c1/ a, b(2) /c2/ c", "parameter (p1 = 1)", "allocatable a1(:), a2", "pointer p1, p2(:)", "target t1(2), t2", "volatile v3, v4", "asynchronous as4, as5", "protected pr1, pr2", "value va1, va2",
+         "external e1, e2", "intrinsic max, min", "optional o1, o2", "public p3, operator(.op.), assignment(=), read(formatted)", "private"]
+EXEC += ["flush(unit=10, iostat=ios, iomsg=msg, err=10)", "entry e3(a, b) result(r3)", "entry e4", "entry e5()",
+         "read 100, a, b", "read *, a, (v(i), i = 1, 3)", "read(5, 100) a", "read(5, fmt=100, iostat=ios) a", "print *", "print 100", "print '(a)'", "write(6, 100)", "write(*, *)",
+         "forall (i = 1:3) a(i) = i", "forall (i = 1:3, j = 1:3, i /= j) a(i, j) = 0", "where (a > 0) a = 0", "goto (10, 20), k", "go to (10, 20) k + 1", "inquire(10, exist=l)", "inquire(file=fn, size=k)",
+         "stop 12345", "call s(*10)", "return k + 1", "x = c(1:2)", "a = b%c%d(1)%e", "p => f(x)", "x = .myun. y", "x = a .mybin. b .mybin. c"]
 IFACE = ["procedure f", "module procedure f", "module procedure f, g", "procedure :: f", "procedure :: f, g", "module procedure :: f", "subroutine s(a)\ninteger a\nend subroutine s",
          "function f(x)\nreal x\nend function f"]
+IFACE += ["function f1(x) result(r) bind(c)\nreal x, r\nend function f1", "function f2(x) bind(c, name='ff') result(r)\nreal x, r\nend function f2", "real function f3(x) result(r)\nreal x\nend function f3",
+          "pure elemental function f4(x)\nreal, intent(in) :: x\nend function f4", "recursive subroutine s5(a, *)\ninteger a\nend subroutine s5", "subroutine s6() bind(c, name='s_6')\nend subroutine s6",
+          "character(len=5) function f7()\nend function f7", "type(tt) function f8()\nend function f8", "subroutine s9\nend subroutine"]
 FORMATS = ["a // a", "i3, /, /, a", "a, :, :, i2", "2/, a", "i2, 3x, /, /, /", "1x, i5", "i5", "f10.3", "a", "3(i2, 1x)", "'text'", "e12.4", "2i5", "a, /, a", "i5.3, es12.4", "l1, g10.3", "tr2, tl1, t10"]
+FORMATS += ["i5.3, b8, o4.2, z8.4", "f10.3, d12.4, e12.4e2, en12.4, es12.4e1, g10.3e2", "l1, a10, a", "t10, tl2, tr3, 5x", "ss, sp, s, bn, bz", "rd, rz, rn, rc, ru, rp", "dc, dp", "2p, f8.2", "dt, dt'x'(1, 2)",
+            "2(i2, 3(f4.1, a)), i2", "'a''b', \"c\"", "i2, :, a", "*(i2, 1x)"]
 
 VALID = "module m\ninteger :: a\ncontains\nsubroutine s\nend subroutine s\nend module m\n"
 INVALID = "program p\nx = (\nend program p\n"
